@@ -19,14 +19,17 @@ CLAIMS = {
             "TLC runs the BDOS stub in the specification exhaustively over short strings / byte values and checks the contract; "
             "random programs of function-2/9 calls (strings up to 4096 bytes, every value except '$', page crossings) run on "
             "the real CPU + tinycpm Memory/IO, each Run validated by TLC Step by Step and the captured console bytes, warnings, "
-            "final PC/SP compared by TLC with the contract.",
+            "final PC/SP compared by TLC with the contract. Some scenarios run two programs on the same CPU with the "
+            "console writer reconfigured (with / without WriteByte) in between.",
             "Strings sampled (exhaustive only for length <= 3 on the specification). internal/tinycpm is compiled from a copy taken at check time.",
             "DESIGN.md section 3 C18"),
     "C17": ("other",
             "TLA+ layout specification of the zexdoc/zexall images evaluated by TLC on the image bytes and the dumped Go tables; pinned digests",
             "TLC evaluates ZexTables!Result on the bytes of both canonical images and on the Go tables dumped from a copy of "
             "internal/zex: record count, order, all 65 bytes and the description of each of the 2 x 67 records; the images "
-            "are pinned by SHA-256. Complete for the finite comparison the property states.",
+            "are pinned by SHA-256; the tables are dumped and compared a second time after every exported method was "
+            "called on the table elements, the returned slices overwritten and private cases appended. Complete for "
+            "the finite comparison the property states.",
             "A constant-level use of TLA+ (a layout definition evaluated on data), not a behavioural model.",
             "DESIGN.md section 3 C17"),
     "C15": ("model_checking",
@@ -51,7 +54,8 @@ CLAIMS = {
             "Programs of all instruction classes are stepped while the CPU object is rebuilt from copies of States, memory and "
             "the pending request before almost every Step; the TLA+ trace specification carries its own state across the run "
             "(hidden state shows up as a rejected Step) and a never-rebuilt twin must stay bit-identical. 2..16 CPUs run from "
-            "separate goroutines in a -race build, each trace validated independently.",
+            "separate goroutines in a -race build, each trace validated independently. The CPU struct is also copied "
+            "by value mid-run (the run continues on the copy, the original is overwritten).",
             "Data-race freedom is decided by the Go race detector on the produced executions; TLA+ contributes the per-CPU "
             "oracle. Programs generated, snapshot points enumerated per run.",
             "DESIGN.md section 3 C10"),
@@ -98,7 +102,9 @@ CLAIMS = {
             "The real CPU.Step is swept over all 2^32 operand pairs x F in {00,01,FE,FF} for every non-doubling ADD/ADC/SBC "
             "encoding (thorough; quick: 4096^2 boundary pairs), all 65,536 values x all 256 F for INC/DEC ss and the doubling "
             "forms, against an oracle composed from TLC's complete ADC/SBC tables by the byte-serial rule that TLC checked "
-            "against the 17-bit definitions; catalogue Steps are also validated by the trace specification.",
+            "against the 17-bit definitions; catalogue Steps, Steps on read-sensitive memory (program bytes answer "
+            "a second read differently) and programs continued on a value copy of the CPU are validated by the trace "
+            "specification.",
             "TLC cannot tabulate 2^33 points: the composition rule is a TLC-checked law (boundary set squared) re-validated on "
             "60,000 TLC-evaluated direct points. Trusts TLC and Z80Alu.tla.",
             "DESIGN.md section 3 C03"),
@@ -116,6 +122,7 @@ CLAIMS = {
             "structured pre-state catalogue (wrap, overlap, flag patterns, IFF/IM) and from biased-random states; further "
             "stages: a coverage-guided corpus (go test -fuzz, every kept input validated by TLC), the whole run of prelim.cim "
             "and windows of zexdoc/zexall on the mini CP/M machine, the real DumbMemory/MapMemory types attached directly, "
+            "read-sensitive memory (a second read of an address returns another value, writes do not stick), "
             "and Run/Step sequences across replacements of CPU.Memory.",
             "Exhaustive over decode points, structured + random over pre-states (the ALU-shaped part is complete in C02/C03). "
             "Trusts TLC, the transcription of the instruction set into Z80Core.tla and the recording devices.",
@@ -162,7 +169,8 @@ CLAIMS = {
             "TLA+ operator tables (TLC, complete domains) + exhaustive Go sweep of CPU.Step + TLC trace validation",
             "TLC tabulates every 8-bit ALU/rotate/bit operator of spec/Z80Alu.tla over its complete domain and checks "
             "23 algebraic laws between the operators; the real CPU.Step is driven over the complete A x operand x F "
-            "cube (8.3e9 Steps) of all 559 catalogue encodings and compared with the tables; random Steps are "
+            "cube (8.3e9 Steps) of all 559 catalogue encodings and compared with the tables; random Steps, and Steps "
+            "of every ALU encoding on read-sensitive memory (an operand read twice differs), are "
             "validated by the TLA+ trace specification. Complete for the finite space the property quantifies over.",
             "Trusts TLC, the transcription of the Z80 ALU rules into Z80Alu.tla (cross-checked by laws incl. DAA's "
             "decimal meaning), and the catalogue theorem binding encodings to operators.",
